@@ -34,6 +34,9 @@ func sweep() {
 
 func main() {
 	sweep()
+	if len(os.Args) > 1 && os.Args[1] == "sweep" {
+		return
+	}
 	cleanup := rig.UseFastTmp()
 	// core.Main leaves through os.Exit on several paths (then the next start sweeps); on the
 	// normal return path clean up here
